@@ -416,8 +416,9 @@ def run(ctx):
                        "time, name (%u %g), %b %k %S %D %F %M directives are C11's (totality) business"]
     self_check()
     nw = common.NCPU
-    n = ctx.scale(3200, 240000)
-    ctx.pmap(worker, [(k, n // nw, ctx.seed, ctx.quick) for k in range(nw)])
+    n = ctx.scale(3200, 4800000)
+    per = min(n // nw, 12000)                 # bounded batches: a worker holds its cases and their output in memory
+    ctx.pmap(worker, [(k, per, ctx.seed, ctx.quick) for k in range(max(nw, n // per))])
     for d in DIRECTIVES:
         ctx.require("directive:%" + d, 20)
     for key in ("escapes", "binary_runs", "identity_evaluations"):
